@@ -8,6 +8,8 @@ import GrVerif.Model.RulesLoad
 import GrVerif.Model.GlyphLoad
 import GrVerif.Model.FaceLoad
 import GrVerif.Model.GlyphGfx
+import GrVerif.Model.FaceLoadAll
+import GrVerif.Model.NameLoad
 namespace Driver.Loader
 open GrVerif.Loader Driver
 
@@ -205,6 +207,48 @@ def stepFace (ws : List String) : String :=
     | _, _, _, _, _, _, _, _ => "bad-op"
   | _ => "bad-op"
 
+/-- `faceall <options> <chunk bits> <head> <hhea> <hmtx> <maxp> <glyf> <loca> <cmap> <Silf> <Gloc> <Glat> <Feat> <Sill>` (hex, `-` = absent) : `gr_make_face` -/
+def stepFaceAll (ws : List String) : String :=
+  match ws with
+  | opts :: cb :: tabs =>
+    match opts.toNat?, cb.toNat?, tabs.mapM (fun h => parseHexUnits 2 h) with
+    | some opts, some cb, some [head, hhea, hmtx, maxp, glyf, loca, cmap, silf, gloc, glat, feat, sill] =>
+      if cb ≠ chunkBits then "bad-op" else
+      if isCompressed silf.toList 0x00050000 || isCompressed glat.toList 0x00030000 then "compressed" else
+      let opt (a : Array Nat) : Option (List Nat) := if a.isEmpty then none else some a.toList
+      let t : AllTables := { head := opt head, hhea := opt hhea, hmtx := opt hmtx, maxp := opt maxp, glyf := opt glyf, loca := opt loca,
+                             silf := silf.toList, gloc := gloc.toList, glat := glat.toList, feat := feat.toList, sill := sill.toList }
+      match loadFaceCmap t (opt cmap) ((opts / 2) % 2 = 1) ((opts / 4) % 2 = 1) with
+      | .error _ => "fault"
+      | .ok none => "noface"
+      | .ok (some f) =>
+        let passes := f.silfs.map fun t => toString t.fixed.numPasses
+        s!"ok {f.numGlyphs} {f.numFeatures} {f.numLanguages} {f.silfs.length}:{String.intercalate "," passes}"
+    | _, _, _ => "bad-op"
+  | _ => "bad-op"
+
+/-- `name <platform> <encoding> <hex> <lang.nameId,…>` : `NameTable` -/
+def stepName (ws : List String) : String :=
+  match ws with
+  | [pl, en, h, qs] =>
+    match pl.toNat?, en.toNat?, parseHexUnits 2 h with
+    | some pl, some en, some b =>
+      match nameInit b.toList pl en with
+      | .error _ => "fault"
+      | .ok none => "notable"
+      | .ok (some t) =>
+        let outs := (qs.splitOn ",").filterMap fun q => match q.splitOn "." with
+          | [l, n] => (match l.toNat?, n.toNat? with
+            | some l, some n => some (match getNameUnits b.toList t l n with
+              | .error _ => "fault"
+              | .ok none => "-"
+              | .ok (some (lang, us)) => s!"{lang}:{digest us}")
+            | _, _ => none)
+          | _ => none
+        s!"ok {t.platOff},{t.platLast},{t.dataLen} " ++ String.intercalate " " outs
+    | _, _, _ => "bad-op"
+  | _ => "bad-op"
+
 /-- `gfx <indexToLocFormat> <numLongHorMetrics> <loca hex> <glyf hex|-> <hmtx hex> <gid,…>` : the graphics half of `read_glyph` -/
 def stepGfx (ws : List String) : String :=
   match ws with
@@ -234,6 +278,8 @@ def step (line : String) : String :=
   | "glyphs" :: rest => stepGlyphs rest
   | "face" :: rest => stepFace rest
   | "gfx" :: rest => stepGfx rest
+  | "faceall" :: rest => stepFaceAll rest
+  | "name" :: rest => stepName rest
   | "silf" :: rest => stepSilf rest
   | "silftable" :: rest => stepSilfTable rest
   | "sfnt" :: rest => stepSfnt rest
